@@ -41,12 +41,14 @@ const PLAIN_NAMES: &[&str] = &[
 const HAZARD_NAMES: &[&str] = &[
     "a b", " a", "a ", "q\"uote", "back\\slash", "tab\t", "nl\n", "sl/ash", "til~de", "$", "co,mma", "co:lon", "\u{1}",
     "\u{7f}", "a\"", "\\", "\\u0041", "k,1", "a\":", "k:[", "'", "<>", "{}", "]", "a]", "%", "#", "@", "a=b", "-", "_",
+    // names that are themselves JSON texts (not in canonical spacing): a name is never re-parsed
+    "{\"a\":1}", "{\"a\": 1}", " 7", "1e3", "-0", "null", "true", "\"q\"", "7", "{ }",
 ];
 const BMP_NAMES: &[&str] = &["é", "日本", "ключ", "\u{80}", "\u{7ff}", "\u{800}", "\u{ffff}", "\u{fffd}", "ß", "ǅ", "\u{200b}", "e\u{301}"];
 const NONBMP_NAMES: &[&str] = &["😀", "𝒳y", "\u{10000}", "\u{10ffff}", "a😀", "😀n", "\u{1f600}\u{1f601}"];
 const LOOKALIKE_NAMES: &[&str] = &["_sd2", "_SD", "..", "....", "sd_hash", "_sd_al", "_sd_alg2", "_sd ", " _sd", "__sd", "_sd_", "…", "sd", "_s", "alg", "typ", "_sdalg"];
 const JWT_NAMES: &[&str] = &["iss", "exp", "aud", "sub", "nbf", "cnf", "jwk", "iat", "jti", "nonce"];
-const DOTTED_NAMES: &[&str] = &["a.b", "a[0]", "[0]", "x.", ".y", "a.", ".", "[", "a[", "[]", "a.[0]", "$.a"];
+const DOTTED_NAMES: &[&str] = &["a.b", "a[0]", "[0]", "x.", ".y", "a.", ".", "[", "a[", "[]", "a.[0]", "$.a", "[1,2]", "[1, 2]", "[ ]", "1.0", "[\"s\", \"n\", 1]"];
 
 pub fn name_strategy(cfg: ClaimCfg) -> BoxedStrategy<String> {
     let sel = |s: &'static [&'static str]| select(s).prop_map(|s| s.to_string()).boxed();
@@ -320,10 +322,12 @@ pub fn alg_strategy() -> BoxedStrategy<Alg> {
 }
 pub fn holder_strategy() -> BoxedStrategy<HolderKey> {
     // Ec2 / Ed2 are other key pairs whose JWKs carry the same `kid` as Ed's
-    prop_oneof![8 => Just(HolderKey::None), 3 => Just(HolderKey::Ec), 3 => Just(HolderKey::Ed), 1 => Just(HolderKey::Ec2), 1 => Just(HolderKey::Ed2)].boxed()
+    prop_oneof![8 => Just(HolderKey::None), 3 => Just(HolderKey::Ec), 3 => Just(HolderKey::Ed), 1 => Just(HolderKey::Ec2), 1 => Just(HolderKey::Ed2), 1 => Just(HolderKey::EcKid)].boxed()
 }
 
-const AUD_NONCE: &[&str] = &["https://verifier.example.org", "https://verifier.example.org/", "https://Verifier.example.org/cb/", "1234567890", "", "a", "audience with spaces", "ノンス", "😀", "\"", "a~b", "x.y.z", "\\", "\u{0}"];
+const AUD_NONCE: &[&str] = &["https://verifier.example.org", "https://verifier.example.org/", "https://Verifier.example.org/cb/", "1234567890", "", "a", "audience with spaces", "ノンス", "😀", "\"", "a~b", "x.y.z", "\\", "\u{0}",
+    // strings that are themselves JSON texts or look like lists: still just strings
+    "[\"https://verifier.example.org\",\"https://rp2.example\"]", "[\"a\"]", "[]", "{\"aud\":\"a\"}", "\"a\"", "null", "true", "12", "1.0", "a b", "a,b"];
 pub fn aud_nonce_strategy() -> BoxedStrategy<String> {
     prop_oneof![
         3 => select(AUD_NONCE).prop_map(String::from),
@@ -410,4 +414,33 @@ pub fn kb_strategy(holder: HolderKey) -> BoxedStrategy<Option<KbArgs>> {
     } else {
         Just(None).boxed()
     }
+}
+
+/// Self-similar (payload, disclosures): every level's disclosure references the next level's
+/// digest twice. See props/c08.rs.
+pub fn doubling_chain_parts() -> BoxedStrategy<(Value, Vec<String>)> {
+    use sdjwt_model::codec::{b64e, digest};
+    use serde_json::json;
+    (8usize..34, 0u8..4, any::<bool>())
+        .prop_map(|(depth, kind, at_top)| {
+            let mut disclosures: Vec<String> = vec![];
+            let last = b64e(br#"["salt-leaf", "n", 1]"#);
+            let mut h = digest(&last);
+            disclosures.push(last);
+            for level in 0..depth {
+                let value = match kind {
+                    0 => json!({"l": {"_sd": [h]}, "r": {"_sd": [h]}}),
+                    1 => json!({"_sd": [h, h]}),
+                    2 => json!([{"...": h}, {"...": h}]),
+                    _ => json!({"l": {"_sd": [h]}, "r": [{"...": h}]}),
+                };
+                let d = b64e(json!([format!("salt-{}", level), "n", value]).to_string().as_bytes());
+                h = digest(&d);
+                disclosures.push(d);
+            }
+            disclosures.reverse();
+            let payload = if at_top { json!({"iss": "i", "exp": 4_000_000_000u64, "_sd": [h], "_sd_alg": "sha-256"}) } else { json!({"iss": "i", "exp": 4_000_000_000u64, "root": {"_sd": [h]}, "_sd_alg": "sha-256"}) };
+            (payload, disclosures)
+        })
+        .boxed()
 }
